@@ -13,7 +13,7 @@ func init() {
 }
 
 func rulesC03(c *Ctx, r *Report) {
-	r.explain("Decides: (BIT-C/G/S) every flag constant has the SAM-specification value, every getter returns exactly its bit and every setter changes exactly its bit, by bit-parallel evaluation that is exact for all flag values at once — this is the property's flag clause itself. Further clauses (tag type table, column table, no quoting layer, sorted tags, one line per record, MarshalText = Write) are listed with their rules below. Not decided: equality of the round trip for all field contents; integer/float formatting (trusted to strconv). Added rules: (G2-SPLIT) the value part of a tag is a suffix of the tag text; (G6 header test only) the header branch depends on the '@' test alone; (NUM-WIDTH) parse widths equal the stored type; (MO) the sorted list is the returned list; (A6-SCHED). (REJECT-ONLY) in parseLine, parseInts, parseTags and splitTag every error constructed lies, on every path from the function entry, behind one of the documented rejection reasons (fewer than 11 fields; Atoi/ParseFloat/DecodeString failed; A value not one character; no second colon; unknown type letter), and no other external error source is consulted: well-formed records, empty values included, are never rejected for another reason. Entry points (shared with C06/C18, restricted to this package): FD, A6, NIL-HANDLE. (LAYER) no decompressor or transcoder is constructed in the codec packages (content sniffing would make records whose text looks like a gzip header unreadable); (NUM-KIND) no float-to-integer conversion in the package.")
+	r.explain("Decides: (BIT-C/G/S) every flag constant has the SAM-specification value, every getter returns exactly its bit and every setter changes exactly its bit, by bit-parallel evaluation that is exact for all flag values at once — this is the property's flag clause itself. Further clauses (tag type table, column table, no quoting layer, sorted tags, one line per record, MarshalText = Write) are listed with their rules below. Not decided: equality of the round trip for all field contents; integer/float formatting (trusted to strconv). Added rules: (G2-SPLIT) the value part of a tag is a suffix of the tag text; (G6 header test only) the header branch depends on the '@' test alone; (NUM-WIDTH) parse widths equal the stored type; (MO) the sorted list is the returned list; (A6-SCHED). (REJECT-ONLY) in parseLine, parseInts, parseTags and splitTag every error constructed lies, on every path from the function entry, behind one of the documented rejection reasons (fewer than 11 fields; Atoi/ParseFloat/DecodeString failed; A value not one character; no second colon; unknown type letter), and no other external error source is consulted: well-formed records, empty values included, are never rejected for another reason. Entry points (shared with C06/C18, restricted to this package): FD, A6, NIL-HANDLE. (LAYER) no decompressor or transcoder is constructed in the codec packages (content sniffing would make records whose text looks like a gzip header unreadable); (NUM-KIND) no float-to-integer conversion in the package. Added after round 8: (G2 one text per type) inside an arm of the tag writer nothing branches on the value; (SAM-SKIP) a line reaches parseLine unless it is empty or a header line, subject only to the read error; (YD1-YD4) the yield discipline of the package iterators.")
 	r.assume("SAM specification flag table embedded in the checker")
 	rulesFlags(c, r)
 	rulesSamCodec(c, r)
